@@ -2,6 +2,7 @@ import GdcVerif.Lemmas.RleTotal
 import GdcVerif.Lemmas.ParsersTotal
 import GdcVerif.Lemmas.J2kTotal
 import GdcVerif.Lemmas.JlsRunBound
+import GdcVerif.Lemmas.J2kMctTotal
 /-!
   C08 — no decoder panics: every byte string yields a result or an error.
 
@@ -80,7 +81,7 @@ example : (sv1Decode [0xff, 0xd8, 0xff, 0xc3, 0x00, 0x0b, 0x02, 0x00, 0x01, 0x00
   rw [sv1Decode_eval 8 rfl rfl] <;> rfl
 example : dhtTable 3 [0x00, 0x03, 0, 0, 0, 0, 0, 0, 0, 0, 0, 0, 0, 0, 0, 0, 0, 1, 2, 3] = .error .err := rfl
 
-/-- regression anchor (C09, commit FIXME-SOF): a second frame header is an error -/
+/-- regression anchor (C09, commit 7825a71): a second frame header is an error -/
 example : (sv1Decode [0xff, 0xd8, 0xff, 0xc3, 0x00, 0x0b, 0x08, 0x00, 0x01, 0x00, 0x01, 0x01, 0x01, 0x11, 0x00,
     0xff, 0xc3, 0x00, 0x0b, 0x08, 0x04, 0x00, 0x04, 0x00, 0x01, 0x01, 0x11, 0x00]).2 = .err := by
   rw [sv1Decode_eval 8 rfl rfl] <;> rfl
@@ -164,3 +165,40 @@ example : decodeRunLength [true, true, true, true, true, true, true, true, false
     = .ok (15, 8, []) := by rfl
 
 end JpegLsRun
+
+namespace Mct
+
+/-- (11) FULL, JPEG 2000 Part-2 multi-component transform, decoder side (`extractBindings`,
+    `decodeMCTMatrix*`, `decodeMCTOffsets`, `applyDecoderMCTBindings`, `applyIntegerMatrixTransform`,
+    `applyFloatMatrixTransform`, `applyBindingOffsets`, `applyDecoderInverseCustomMCT` after 43b6ee7):
+    for EVERY list of parsed MCT / MCC / MCO segments, component count and image with that many planes
+    no slice index is out of range — every index of the Go code is an explicit `Option` site of the model.
+    `WF` is the abstraction invariant (the payload of an MCT segment splits into complete elements and a
+    rest shorter than one element), true of every byte string. -/
+theorem j2k_mct_total (cs : Cs) (components : Nat) (v : List Int) (hwf : ∀ s ∈ cs.mct, s.WF)
+    (hv : v.length = components) : transform cs components v ≠ none := by
+  obtain ⟨v', hv'⟩ := transform_total cs components v hwf hv
+  rw [hv']
+  exact fun h => by cases h
+
+/-- regression anchor (corpus/C08/jpeg2000.Decoder.applyIntegerMatrixTransform-index-109f8625): a
+    collection naming component 3 of a 3-component image used to index `d.data[3]`; since 43b6ee7 the
+    collection is skipped and the image is left as it is -/
+example : transform { mct := [{ index := 1, arrayType := 1, elemType := 1, vals := [1, 0, 0, 0, 1, 0, 0, 0, 1], pad := 0 }],
+                      mcc := [{ index := 2, collType := 1, numComps := 3, compIDs := [3, 1, 2], outIDs := [3, 1, 2],
+                                decorr := 1, offs := 0, reversible := true }],
+                      mco := [] } 3 [5, 6, 7] = some [5, 6, 7] := by decide
+
+/-- non-vacuity: the same stream with ids 2,1,0 and a non-trivial matrix does transform the image -/
+example : transform { mct := [{ index := 1, arrayType := 1, elemType := 1, vals := [1, 1, 0, 0, 1, 0, 0, 0, 2], pad := 0 }],
+                      mcc := [{ index := 2, collType := 1, numComps := 3, compIDs := [2, 1, 0], outIDs := [2, 1, 0],
+                                decorr := 1, offs := 0, reversible := true }],
+                      mco := [] } 3 [5, 6, 7] = some [10, 6, 13] := by decide
+
+/-- a short matrix (8 of 9 elements) is not a matrix: no binding, nothing indexed -/
+example : transform { mct := [{ index := 1, arrayType := 1, elemType := 0, vals := [1, 1, 0, 0, 1, 0, 0, 0], pad := 1 }],
+                      mcc := [{ index := 2, collType := 1, numComps := 3, compIDs := [2, 1, 0], outIDs := [],
+                                decorr := 1, offs := 0, reversible := false }],
+                      mco := [[2, 2]] } 3 [5, 6, 7] = some [5, 6, 7] := by decide
+
+end Mct
